@@ -320,7 +320,7 @@ def run(ctx):
   ctx.log("MC_Rpc: %d scripts, %d distinct states in %.1fs; unsafe configuration violates Atomic, revert holds"
           % (len(scripts), model["distinct"], model["wall"]))
   if ctx.quick:
-    nshards, per = 8, 40
+    nshards, per = 8, 30
     coltypes = ["Any", COLTYPES[1 + ctx.seed % (len(COLTYPES) - 1)]]
   else:
     nshards, per = 16, 700
